@@ -10,5 +10,7 @@ CONSTANTS
  DevMolsPerFile = FALSE
  DevDirKeep = FALSE
  DevElseKeep = FALSE
+ DevRootFirst = FALSE
+ DevEdgesNewOnly = FALSE
 CHECK_DEADLOCK FALSE
 INVARIANT Same
